@@ -1,4 +1,193 @@
+(* C46 Resource counts report what the circuit contains.
+   Statements only; every proof is `exact <lemma>` from Disc/ResourceCountProofs.v.
+   Model: Disc/ResourceCountModel.v (circuit = list of gates + measurements; summaries as tape.specs reports them). *)
 From Coq Require Import List ZArith Bool.
 From PLV Require Import Disc.ResourceCountModel Disc.ResourceCountProofs.
-Theorem stub : True. Proof. exact stub_true. Qed.
-Print Assumptions stub.
+Import ListNotations.
+Open Scope Z_scope.
+
+(* ---------------------------------------------------------------- gate counts by type *)
+(* every reported count is the number of operations carrying that key (name, control prefix); absent keys read 0 *)
+Theorem counts_are_occurrences : forall c k,
+  cget k (gate_counts c) = Z.of_nat (length (filter (fun g => ckeyb (gkey g) k) (ops c))).
+Proof. intros c k; exact (count_occ_spec gkey k (ops c)). Qed.
+Print Assumptions counts_are_occurrences.
+
+(* the reported dictionary has pairwise distinct keys, and exactly the keys that occur in the circuit *)
+Theorem counts_keys_exact : forall c,
+  NoDup (map fst (gate_counts c)) /\ forall k, In k (map fst (gate_counts c)) <-> exists g, In g (ops c) /\ gkey g = k.
+Proof. exact gate_counts_keys. Qed.
+Print Assumptions counts_keys_exact.
+
+(* sum of gate-type counts = number of gates (= total_quantum_operations) = sum of gate-size counts *)
+Theorem counts_sum_to_len : forall c,
+  ctotal (gate_counts c) = Z.of_nat (length (ops c)) /\ ctotal (size_counts c) = Z.of_nat (length (ops c)).
+Proof. exact gate_counts_sum. Qed.
+Print Assumptions counts_sum_to_len.
+
+(* the same for ANY classification of ANY kind of item (used for measurement processes) *)
+Theorem count_by_sums_and_counts : forall (A : Type) (f : A -> ckey) (l : list A),
+  ctotal (count_by f l) = Z.of_nat (length l) /\
+  forall k, cget k (count_by f l) = Z.of_nat (length (filter (fun x => ckeyb (f x) k) l)).
+Proof. intros A f l; split; [exact (count_total f l) | intros k; exact (count_occ_spec f k l)]. Qed.
+Print Assumptions count_by_sums_and_counts.
+
+(* ---------------------------------------------------------------- wires and parameters *)
+Theorem num_wires_is_distinct_wires : forall c,
+  num_wires c = Z.of_nat (length (all_wires c)) /\ NoDup (all_wires c) /\
+  forall w, In w (all_wires c) <->
+            (exists g, In g (ops c) /\ In w (gwires g)) \/ (exists m, In m (meass c) /\ In w (mwires m)).
+Proof. exact num_wires_spec. Qed.
+Print Assumptions num_wires_is_distinct_wires.
+
+(* explicit trainable set: the number of DISTINCT indices assigned; default: all parameters (by definition) *)
+Theorem num_params_is_distinct_indices : forall c l, trainable c = Some l ->
+  exists d, NoDup d /\ (forall x, In x d <-> In x l) /\ num_params c = Z.of_nat (length d).
+Proof. exact num_params_set. Qed.
+Print Assumptions num_params_is_distinct_indices.
+
+(* ---------------------------------------------------------------- depth *)
+(* what "b depends on a" means: they share an effective wire (wire-less operations act on all wires of the tape),
+   or b is conditioned on the mid-circuit measurement a *)
+Theorem dependency_meaning : forall aw a b,
+  glinked aw a b <-> (exists w, In w (eff aw a) /\ In w (eff aw b)) \/ (exists m, In m (gmid a) /\ In m (gcond b)).
+Proof. exact glinked_iff. Qed.
+Print Assumptions dependency_meaning.
+
+(* depth >= the number of operations of ANY dependency chain (subsequence with consecutive dependent operations) *)
+Theorem depth_ge_any_chain : forall c s, mcm_distinct c -> all_wires c <> [] ->
+  subseq s (ops c) -> chain_rel (glinked (all_wires c)) s -> Z.of_nat (length s) <= depth c.
+Proof. exact depth_ge_chain. Qed.
+Print Assumptions depth_ge_any_chain.
+
+(* ... and some chain attains it *)
+Theorem depth_attained : forall c, mcm_distinct c ->
+  exists s, subseq s (ops c) /\ chain_rel (glinked (all_wires c)) s /\ Z.of_nat (length s) = depth c.
+Proof. exact depth_attained_chain. Qed.
+Print Assumptions depth_attained.
+
+Theorem depth_is_longest_chain : forall c, mcm_distinct c -> all_wires c <> [] ->
+  (forall s, subseq s (ops c) -> chain_rel (glinked (all_wires c)) s -> Z.of_nat (length s) <= depth c) /\
+  (exists s, subseq s (ops c) /\ chain_rel (glinked (all_wires c)) s /\ Z.of_nat (length s) = depth c).
+Proof. exact depth_longest_chain. Qed.
+Print Assumptions depth_is_longest_chain.
+
+(* the same on the raw dependency graph (initial identity included), for any node list *)
+Theorem level_recursion_is_longest_path : forall q, q <> [] -> wf_run [] q ->
+  (forall t, subseq t q -> chain_rel linked t -> t <> [] -> Z.of_nat (length t) - 1 <= depth_nodes q) /\
+  (exists t, subseq t q /\ chain_rel linked t /\ Z.of_nat (length t) = depth_nodes q + 1).
+Proof.
+  intros q Hq Hw; split; [intros t; exact (depth_nodes_ge_chain q t Hw) | exact (depth_nodes_attained q Hq Hw)].
+Qed.
+Print Assumptions level_recursion_is_longest_path.
+
+Theorem depth_le_num_gates : forall c, 0 <= depth c <= Z.of_nat (length (ops c)).
+Proof. intros c; split; [exact (depth_nonneg c) | exact (depth_le_gates c)]. Qed.
+Print Assumptions depth_le_num_gates.
+
+(* appending an operation that brings no new wire changes the depth by 0 or 1 *)
+Theorem depth_append_bounds : forall c g, all_wires (with_op c g) = all_wires c ->
+  depth c <= depth (with_op c g) <= depth c + 1.
+Proof. exact depth_append. Qed.
+Print Assumptions depth_append_bounds.
+
+(* REFUTED tidy clauses (quirks of the code, shown on concrete circuits):
+   - a tape without any wire has depth 0 although it contains a chain of one operation;
+   - appending an operation on a NEW wire can raise the depth by 2 (the wire-less GlobalPhase starts acting on it). *)
+Theorem depth_chain_bound_needs_wires_refuted :
+  exists c s, depth c = 0 /\ subseq s (ops c) /\ chain_rel (glinked (all_wires c)) s /\ length s = 1%nat.
+Proof.
+  exists (mkCirc [gphase0] [] None), [gphase0].
+  destruct depth_no_wires_example as [H1 [H2 H3]].
+  split; [exact H1 | split; [exact H2 | split; [exact H3 | reflexivity]]].
+Qed.
+Print Assumptions depth_chain_bound_needs_wires_refuted.
+
+Theorem depth_append_new_wire_refuted : exists c g, depth c = 0 /\ depth (with_op c g) = 2.
+Proof. exists (mkCirc [gphase0] [] None), rx0. exact depth_new_wire_example. Qed.
+Print Assumptions depth_append_new_wire_refuted.
+
+(* ---------------------------------------------------------------- estimator Resources: series / parallel / scaling *)
+(* wires: zeroed max, any_state sum, algo max (series) / sum (parallel); gates identical in both *)
+Theorem add_wire_rules : forall x y,
+  ez (add_series x y) = Z.max (ez x) (ez y) /\ ea (add_series x y) = ea x + ea y /\ el (add_series x y) = Z.max (el x) (el y) /\
+  ez (add_parallel x y) = Z.max (ez x) (ez y) /\ ea (add_parallel x y) = ea x + ea y /\ el (add_parallel x y) = el x + el y /\
+  egt (add_parallel x y) = egt (add_series x y).
+Proof. exact add_fields. Qed.
+Print Assumptions add_wire_rules.
+
+(* gate counts add pointwise (Counter addition clamps non-positive sums to "absent") *)
+Theorem add_series_adds_counts : forall x y k, NoDup (ekeys (egt x)) -> NoDup (ekeys (egt y)) ->
+  eget k (egt (add_series x y)) = (if 0 <? eget k (egt x) + eget k (egt y) then eget k (egt x) + eget k (egt y) else 0) /\
+  (0 <= eget k (egt x) -> 0 <= eget k (egt y) -> eget k (egt (add_series x y)) = eget k (egt x) + eget k (egt y)).
+Proof. exact add_counts. Qed.
+Print Assumptions add_series_adds_counts.
+
+Theorem add_parallel_uses_at_least_series_wires : forall x y, 0 <= ez x -> 0 <= ez y -> 0 <= el x -> 0 <= el y ->
+  total_wires (add_series x y) <= total_wires (add_parallel x y) <= total_wires x + total_wires y.
+Proof. exact total_wires_parallel. Qed.
+Print Assumptions add_parallel_uses_at_least_series_wires.
+
+(* scaling = repeated addition (n+1 copies), observationally: same wire fields, same count for every gate *)
+Theorem multiply_series_is_repeated_add : forall x n, NoDup (ekeys (egt x)) -> nonneg_counts (egt x) ->
+  eres_eq (mul_series x (Z.of_nat n + 1)) (rep_series x n).
+Proof. exact mul_series_is_repeated_add. Qed.
+Print Assumptions multiply_series_is_repeated_add.
+
+Theorem multiply_parallel_is_repeated_add : forall x n, NoDup (ekeys (egt x)) -> nonneg_counts (egt x) ->
+  eres_eq (mul_parallel x (Z.of_nat n + 1)) (rep_parallel x n).
+Proof. exact mul_parallel_is_repeated_add. Qed.
+Print Assumptions multiply_parallel_is_repeated_add.
+
+Theorem add_commutative : forall x y, NoDup (ekeys (egt x)) -> NoDup (ekeys (egt y)) ->
+  eres_eq (add_series x y) (add_series y x) /\ eres_eq (add_parallel x y) (add_parallel y x).
+Proof. intros x y Hx Hy; split; [exact (add_series_comm x y Hx Hy) | exact (add_parallel_comm x y Hx Hy)]. Qed.
+Print Assumptions add_commutative.
+
+Theorem add_series_associative : forall x y z,
+  NoDup (ekeys (egt x)) -> NoDup (ekeys (egt y)) -> NoDup (ekeys (egt z)) ->
+  nonneg_counts (egt x) -> nonneg_counts (egt y) -> nonneg_counts (egt z) ->
+  eres_eq (add_series (add_series x y) z) (add_series x (add_series y z)).
+Proof. exact add_series_assoc. Qed.
+Print Assumptions add_series_associative.
+
+(* ---------------------------------------------------------------- symbolic counts (resource.Expression) *)
+(* + and * commute with evaluation/substitution of all variables *)
+Theorem expression_add_int_consistent : forall rho e z, reval rho (xadd_int e z) = xeval rho e + z.
+Proof. exact xadd_int_eval. Qed.
+Print Assumptions expression_add_int_consistent.
+
+Theorem expression_add_consistent : forall rho a b, reval rho (xadd a b) = xeval rho a + xeval rho b.
+Proof. exact xadd_eval. Qed.
+Print Assumptions expression_add_consistent.
+
+Theorem expression_scale_consistent : forall rho e z, reval rho (xmul_int e z) = z * xeval rho e.
+Proof. exact xmul_int_eval. Qed.
+Print Assumptions expression_scale_consistent.
+
+(* total_quantum_operations of symbolic counts evaluates to the sum of the evaluated counts *)
+Theorem symbolic_total_is_sum : forall rho l,
+  reval rho (fold_left radd l (XInt 0)) = fold_right (fun r a => reval rho r + a) 0 l.
+Proof. exact total_eval. Qed.
+Print Assumptions symbolic_total_is_sum.
+
+(* ---------------------------------------------------------------- non-vacuity *)
+(* H(0); m = measure(0); RX(1); cond(m, X)(2); GlobalPhase (wire-less); measured on wire 3 *)
+Definition ex_c : circuit :=
+  mkCirc [mkGate 1 [0] 0 0 [] []; mkGate 2 [0] 0 0 [7] []; mkGate 3 [1] 1 0 [] []; mkGate 4 [2] 0 0 [] [7];
+          mkGate 5 [] 1 0 [] []] [mkMeas 1 false None [3] 0] (Some [0; 0; 1]).
+Example hyps_satisfiable :
+  mcm_distinct ex_c /\ all_wires ex_c = [0; 1; 2; 3] /\ depth ex_c = 4 /\ num_params ex_c = 2 /\
+  gate_counts ex_c = [((1, 0, 0), 1); ((2, 0, 0), 1); ((3, 0, 0), 1); ((4, 0, 0), 1); ((5, 0, 0), 1)] /\
+  meas_counts ex_c = [((1, 2, 1), 1)].
+Proof.
+  split; [unfold mcm_distinct; cbn; constructor; [intros [] | constructor] | repeat split; vm_compute; reflexivity].
+Qed.
+
+Example resources_hyps_satisfiable :
+  let x := mkERes 1 2 3 [(0, 2); (5, 1)] in
+  NoDup (ekeys (egt x)) /\ nonneg_counts (egt x) /\ egt (rep_series x 2) = [(0, 6); (5, 3)] /\ el (rep_parallel x 2) = 9.
+Proof.
+  cbn zeta. split; [cbn; repeat constructor; cbn; intuition congruence|]. split; [|split; reflexivity].
+  intros k. unfold eget; cbn. destruct (0 =? k); [discriminate|]. destruct (5 =? k); discriminate.
+Qed.
